@@ -367,3 +367,31 @@ fn c19_vacuity_twin() {
     clause_vertex_grid(3);
     assert!(false, "vacuity twin: end of harness is reachable");
 }
+
+/// A proper but tiny last segment far along the curve (cumulative lengths 0, 1000, 1000.00001;
+/// CONCRETE, so the interpolation weight is a constant) with vertices on the integer grid:
+/// progress >= 1 must land exactly on the last vertex, and the vertex before it is hit exactly.
+fn clause_end_tiny_last_segment() {
+    let path = vec![
+        Pos::new(kani::any::<i8>() as f32, kani::any::<i8>() as f32),
+        Pos::new(kani::any::<i8>() as f32, kani::any::<i8>() as f32),
+        Pos::new(kani::any::<i8>() as f32, kani::any::<i8>() as f32),
+    ];
+    let lengths = vec![0.0, 1000.0, 1000.00001];
+    let curve = hooks::curve_from_raw(path.clone(), lengths.clone());
+    let p: f64 = kani::any();
+    kani::assume(p >= 1.0);
+    let end = curve.position_at(p);
+    assert!(end.x == path[2].x && end.y == path[2].y, "progress >= 1 is not the last vertex");
+    let mid = curve.interpolate_vertices(curve.idx_of_dist(1000.0), 1000.0);
+    assert!(mid.x == path[1].x && mid.y == path[1].y, "the position at a vertex's cumulative length is not that vertex");
+    kani::cover!(path[2].x != path[1].x, "distinct end points of the tiny segment");
+    core::mem::forget(curve);
+}
+
+// @verif property=C19 tier=quick timeout=900 bounds="CONCRETE cumulative lengths [0, 1000, 1000.00001] (a segment longer than f64::EPSILON but far below the f32 resolution at 1000), 3 vertices on the integer grid; progress >= 1 and the middle vertex: exact equality"
+#[kani::proof]
+#[kani::unwind(7)]
+fn c19_end_tiny_last_segment() {
+    clause_end_tiny_last_segment();
+}
